@@ -94,6 +94,9 @@ class LRUCache:
         if link is head:
             # Not yet in map
             value = self.original_function(*key)
+            if self.max_size <= 0:
+                # Nothing may be stored: behave like the uncached function.
+                return value
             if len(mapping) >= self.max_size:
                 # Unlink the least recently used element
                 old_prev, old_next, old_key, old_value = head[_NEXT]
